@@ -343,6 +343,7 @@ func runC08(c *Ctx) {
 	}
 
 	checkLisk32(c)
+	checkDecodedIntegerArithmetic(c)
 
 	// ---- I1 IDs
 	{
